@@ -1,6 +1,7 @@
 import BPT.Generated.Source
 import BPT.Arena.Model
 import BPT.Rust.Policy
+import BPT.Rust.Raw
 /-
   Tie lemmas: what tools/extract.py regenerated from /repo's sources equals what
   the hand-written models use.  If a threshold, constant or guard changes in the
@@ -43,6 +44,14 @@ theorem rust_rebalance_tests :
     rust_rebalance_can_donate_tests =
       ["(n > (rust_leaf_min_keys cap))", "(n > (rust_branch_min_keys cap))",
        "(n > (rust_leaf_min_keys cap))", "(n > (rust_branch_min_keys cap))"] := by decide
+
+/-! ### the repaired-defect switches of the reader model (`Cfg.repaired`) are what the code does now -/
+theorem rust_range_skip_only_matched : rust_range_skip_only_matched = Rust.Cfg.repaired.skipOnlyMatched := rfl
+theorem rust_end_key_honours_inclusive : rust_end_key_honours_inclusive = Rust.Cfg.repaired.honourEndIncl := rfl
+theorem rust_iter_guard_both : rust_iter_guard_both = Rust.Cfg.repaired.guardBoth := rfl
+theorem rust_validator_checks_empty : rust_validator_checks_empty = Rust.Cfg.repaired.validatorChecksEmpty := rfl
+/-- FastItemIterator follows leaf ids through the checked lookup: no `get_leaf_unchecked` call site is left -/
+theorem rust_fast_checked : rust_leaf_unchecked_followers = [] ∧ Rust.Cfg.repaired.fastChecked = true := ⟨rfl, rfl⟩
 
 /-! ### inventories (C02, C05, C11, C15) -/
 theorem no_interior_mutability : rust_interior_mutability = [] := rfl
